@@ -107,7 +107,6 @@ def PVal (c : Ctx) (S : Bool) (kp : List Str) (k : Str) (op : Option Meta) : J â
     match op with
     | some (.ty .Namespace) => .obj kvs
     | some (.ty .Exempt) => .obj kvs
-    | some (.ty .OperatorArray) => .obj kvs
     | some (.ty .Pipeline) => .obj (fromPairs (FacetEntries c kvs))
     | some (.map m) => .obj (fromPairs (SubEntries c S k (kp ++ [k]) m kvs))
     | _ => .obj (fromPairs (PEntries c S (kp ++ [k]) kvs))      -- FieldName (both modes) and generic
@@ -141,7 +140,6 @@ def PVal (c : Ctx) (S : Bool) (kp : List Str) (k : Str) (op : Option Meta) : J â
         | _ => v
       else v
     | some (.ty .Exempt) => v
-    | some (.ty .OperatorArray) => v
     | _ => c.genericScalar S (kp ++ [k]) v
 
 /-- elements of an `OperatorArray` operand: each through `redactPipelineStage(elem, â€¦, nkp, S)` -/
@@ -180,7 +178,6 @@ def SubVal (c : Ctx) (S : Bool) (k : Str) (nkp : List Str) (sk : Str) (sm : Opti
     match sm with
     | some (.ty .Namespace) => if c.cfg.ns then .obj (fromPairs (c.nsDoc kvs)) else .obj kvs
     | some (.ty .Exempt) => .obj kvs
-    | some (.ty .OperatorArray) => .obj kvs
     | _ => .obj (fromPairs (PEntries c S (nkp ++ [sk]) kvs))    -- FieldName, Pipeline, generic
   | .arr xs =>
     match sm with
@@ -205,7 +202,6 @@ def SubVal (c : Ctx) (S : Bool) (k : Str) (nkp : List Str) (sk : Str) (sm : Opti
         | _ => v
       else v
     | some (.ty .Exempt) => v
-    | some (.ty .OperatorArray) => v
     | some (.ty .Pipeline) =>
       (match v with
        | .str _ => v
